@@ -291,13 +291,23 @@ func c17Base64(c *mon.Ctx) {
 				{
 					s := base64.RawStdEncoding.EncodeToString(raw)
 					var err error
-					how := gen.Pick(r, []string{"Decode", "Scan", "UnmarshalJSON"})
+					how := gen.Pick(r, []string{"Decode", "Scan", "UnmarshalJSON", "Scan-bytes", "Scan-bytes", "Scan-rawjson"})
 					into := func(text string) {
 						switch how {
 						case "Decode":
 							err = reused.Decode(text)
 						case "Scan":
 							err = reused.Scan(text)
+						case "Scan-bytes":
+							// a database driver's buffer: copied as it is, and the driver reuses it afterwards
+							dec, _ := base64.RawStdEncoding.DecodeString(text)
+							src := append([]byte{}, dec...)
+							err = reused.Scan(src)
+							for i := range src {
+								src[i] ^= 0xFF
+							}
+						case "Scan-rawjson":
+							err = reused.Scan(spec.RawJSON(`"` + text + `"`))
 						default:
 							err = reused.UnmarshalJSON([]byte(`"` + text + `"`))
 						}
@@ -306,6 +316,20 @@ func c17Base64(c *mon.Ctx) {
 					c.Count("base64_decodes_into_a_reused_value")
 					if err != nil || string(reused) != string(raw) {
 						c.Failf("base64:reused-destination", "%s(%q) into a value that held something before: %x, %v; want %x", how, s, []byte(reused), err, raw)
+					}
+					// what was read out of the variable earlier (a rows loop appending each value to a list) stays what it was
+					c.Retain("base64", "a value read from a Base64Bytes variable that was decoded into again afterwards", []byte(reused))
+					if len(raw) > 0 {
+						// ... also when the next value is no longer than this one (it would fit into the same storage)
+						other := make([]byte, len(raw)-r.Intn(2)*r.Intn(len(raw)))
+						for i := range other {
+							other[i] = ^raw[i]
+						}
+						into(base64.RawStdEncoding.EncodeToString(other))
+						if err != nil || string(reused) != string(other) {
+							c.Failf("base64:reused-destination", "%s into a value that held a longer or equally long value before: %x, %v; want %x", how, []byte(reused), err, other)
+						}
+						c.CheckRetained("base64")
 					}
 					if r.Chance(0.4) {
 						into("")
